@@ -68,6 +68,26 @@ func runC11(c *core.Ctx) {
 			t = g.Around(annotKinds[c.R.Intn(len(annotKinds))], t)
 		}
 	}
+	if c.Case >= gen.SweepSize() && c.Case%10 == 7 {
+		// OS predicates that come from TWO places: an errno (under an optional os wrapper), and a
+		// Mark with / a Join branch that is one of the os sentinels -- each answers for itself
+		en := g.Make("errno", nil, nil)
+		if c.R.Intn(2) == 0 {
+			en = g.Around([]string{"patherr", "syscallerr", "wrap", "linkerr"}[c.R.Intn(4)], en)
+		}
+		sn := &gen.Node{Kind: "sentinel", N: []int{[]int{2, 3, 4, 13}[c.R.Intn(4)]}} // os.ErrNotExist, ErrPermission, ErrExist, ErrDeadlineExceeded
+		switch c.R.Intn(3) {
+		case 0:
+			t = &gen.Node{Kind: "mark", Kids: []*gen.Node{en}, Hidden: []*gen.Node{sn}}
+		case 1:
+			t = g.Make("join", []*gen.Node{en, sn}, nil)
+		default:
+			t = g.Make("gojoin", []*gen.Node{sn, en}, nil)
+		}
+		if c.R.Intn(2) == 0 {
+			t = g.Around("wrap", t)
+		}
+	}
 	coverTree(c, t)
 	e, _, ok := safeBuild(c, t)
 	if !ok {
